@@ -15,6 +15,7 @@ META = {
             'flight and the destructor leaves none.  The model is tied to the code by running generated scripts under generated schedules on the real class '
             '(hooks at every atomic access and payload access) and comparing step trace, results, final head/tail, per-slot ledger state and tags, and the state after '
             'the destructor with the model evaluated in Coq; the property is also evaluated model-independently on the implementation\'s trace and results.',
+    'payload_steps': 'every access to a slot payload is its own schedulable step in the code hooks and in the model: placement-new (data_write), move-out (data_read) and the destructor call (data_destroy); the invariant states that the payload is dead before the store that hands the slot back (C34/C35_payload_dead_before_release). The harness element type additionally checks that every construction / move-out / destruction touching a slot address happens while the thread\'s last granted hook is the matching payload site; a stray access (e.g. a destructor call moved behind the releasing store) and any constructOverLive / doubleDestroy / destroyUnborn on a slot address is a property failure. A deterministic probe family (full ring, each pop overload, producer spinning on each push variant and scheduled after every consumer step) runs on every tier.',
     'note': 'Trusted: Coq kernel; harness/vsched.h, harness/life.h; SC interleaving of atomics (the acquire/release pairing that makes the payload accesses race-free on weak memory is not modelled). '
             'The three push variants (T&&, const T&, emplace) and the three pop variants share one access pattern and one set of hook names. No axioms.',
 }
